@@ -1,4 +1,4 @@
-import SkoolVerif.Proofs.CmioVsSimStep
+import SkoolVerif.Proofs.CmioVsSimRun
 /-!
 C19 — contention simulation only ever adds the delays the ULA would impose.
 Models: `Gen/CmioHandlers.lean` (translated from cmiosimulator.py on every run),
@@ -9,17 +9,57 @@ namespace C19
 open Z80 Contend CmioVsSim
 
 /-- Every instruction leaves registers, flags, memory, PC, interrupt state and the port-access
-sequence exactly as the plain simulator does and never takes fewer T-states.
-`_partial`: BIT n,(HL) (flag bits 5/3 depend on MEMPTR: exempted by the property itself), HALT and
-LD A,I/R are excluded (`CmioVsSim.pending`). -/
-theorem only_adds_delay_partial {μ : Type} [MemLike μ] (cfg : Cfg) (s : St μ)
-    (hp : pending (Sim.leafOf s) = false) (hr : RegsOk s.reg) :
-    SameButClock (Sim.step cfg s) (Cmio.step cfg s) := same_step_partial cfg s hp hr
+sequence exactly as the plain simulator does and never takes fewer T-states (MEMPTR is not compared).
+The only closure left out of this statement is `BIT n,(HL)` (`isBitHl`), whose flag bits 5 and 3 depend
+on MEMPTR — the property's own exemption; `only_adds_delay_modF53` covers it.
+`CfgOk cfg` is the frame layout HALT and LD A,I/R need (they test the interrupt window after adding the
+delay); both machine configurations have it (`frame_layout_ok`). -/
+theorem only_adds_delay {μ : Type} [MemLike μ] (cfg : Cfg) (s : St μ)
+    (hb : isBitHl (Sim.leafOf s) = false) (hr : RegsOk s.reg) (hcfg : CfgOk cfg) :
+    SameButClock (Sim.step cfg s) (Cmio.step cfg s) := same_step cfg s hb hr hcfg
 
-/-- never fewer T-states (corollary, same exclusions) -/
-theorem never_fewer_tstates_partial {μ : Type} [MemLike μ] (cfg : Cfg) (s : St μ)
-    (hp : pending (Sim.leafOf s) = false) (hr : RegsOk s.reg) :
-    (Sim.step cfg s).t ≤ (Cmio.step cfg s).t := (same_step_partial cfg s hp hr).2.2.2.2.2.2.2.2.2
+/-- Every instruction, no exclusion: the same as above except that bits 5 and 3 of F are not compared
+("MEMPTR and the flag bits that depend on it"): every register but F, F under mask 0xD7, memory, PC,
+IFF, IM, HALT, port logs equal, T never smaller. -/
+theorem only_adds_delay_modF53 {μ : Type} [MemLike μ] (cfg : Cfg) (s : St μ)
+    (hr : RegsOk s.reg) (hcfg : CfgOk cfg) :
+    SameModF53 (Sim.step cfg s) (Cmio.step cfg s) := sameModF53_step cfg s hr hcfg
+
+/-- never fewer T-states: every instruction, no exclusion -/
+theorem never_fewer_tstates {μ : Type} [MemLike μ] (cfg : Cfg) (s : St μ)
+    (hr : RegsOk s.reg) (hcfg : CfgOk cfg) :
+    (Sim.step cfg s).t ≤ (Cmio.step cfg s).t := (sameModF53_step cfg s hr hcfg).2.2.2.2.2.2.2.2.2.2
+
+/-- the frame-layout side condition holds for the 48K and the 128K configuration of
+`CMIOSimulator.__init__` (constants compared with the real objects on every run) -/
+theorem frame_layout_ok : CfgOk (cfgFor false) ∧ CfgOk (cfgFor true) := ⟨cfgOk_48k, cfgOk_128k⟩
+
+/-- the bound behind it: a delay is at most 6 T-states per bus access of the instruction's pattern -/
+theorem delay_le_six_per_access {μ : Type} [MemLike μ] (cfg : Cfg) (m : μ) (t : Int) (l : List (Int × Int)) :
+    contend cfg m t l ≤ 6 * l.length := contend_le cfg m t l
+
+/-- the one closure with the weaker statement -/
+theorem isBitHl_iff (i : Sim.Instr) : isBitHl i = true ↔ ∃ b t, i = .bit_hl b t := by
+  cases i <;> simp [isBitHl]
+
+/-- Runs of any length (no interrupt accepted in between): started from the same state, the contended
+simulator has after each of the first `n` instructions the same registers, flags, memory, PC, interrupt
+state and port logs as the plain one and is never ahead of it in T — provided the plain run keeps its
+registers in range and meets none of the three closures whose effect depends on what the two states
+differ in (`clockFree`: HALT and LD A,I/R read T; BIT n,(HL) reads MEMPTR in the contended simulator). -/
+theorem only_adds_delay_run {μ : Type} [MemLike μ] (cfg : Cfg) (hcfg : CfgOk cfg) (n : Nat) (s : St μ)
+    (hall : ∀ k, k < n → RegsOk (Sim.runN cfg k s).reg ∧ clockFree (Sim.leafOf (Sim.runN cfg k s)) = true)
+    (m : Nat) (hm : m ≤ n) :
+    SameButClock (Sim.runN cfg m s) (Cmio.runN cfg m s) := same_runN cfg hcfg n s hall m hm
+
+/-- the step behind it: from two states that differ in T (contended not earlier) and MEMPTR only -/
+theorem only_adds_delay_from_related {μ : Type} [MemLike μ] (cfg : Cfg) (a b : St μ) (h : SameButClock a b)
+    (hc : clockFree (Sim.leafOf a) = true) (hr : RegsOk a.reg) (hcfg : CfgOk cfg) :
+    SameButClock (Sim.step cfg a) (Cmio.step cfg b) := same_step_rel cfg a b h hc hr hcfg
+
+/-- exactly three closures are not clock-free -/
+theorem clockFree_false_iff (i : Sim.Instr) :
+    clockFree i = false ↔ (∃ b t, i = .bit_hl b t) ∨ i = .halt ∨ (∃ r, i = .ld_a_ir r) := clockFree_iff i
 
 /-- Outside the display-fetch part of the frame (the guard `t0 < T mod frame < t1` is false) every
 closure — no exclusions — takes exactly the plain simulator's T-states. -/
